@@ -40,6 +40,7 @@ ASSUMPTIONS = ['documented type codes are the 25 labels of FUNCTION_ID_MAP / BIN
                'a valid DAT file has at least one data channel beside UTIM DATE TIME (RE_DATA_HEADER_DEFINITION requires it)',
                'promptness = at most 2 s CPU per call for inputs up to 1 MB (the LIS test indexes the whole file, cost is linear in size)',
                'a conformant RP66V1 storage unit label has a positive sequence number and a positive maximum record length']
+EXTRA_LEAN_TARGETS = ('TD.C20.ExamplesPad',)     # kernel-evaluated padded LIS examples of the repaired defect's input class
 TRUSTED = ['modelled, not verified: Python re (the RP66 patterns are classified into matcher shapes by exhaustive comparison over a 12-letter '
            'alphabet at the field width; RE_LAS_VERSION_LINE is transcribed as a scanner), bytes.strip/lstrip, line iteration of binary files, '
            'int() on two printable characters, cp500 decoding',
@@ -270,9 +271,10 @@ class Batch:
             if not res['pos_ok']:
                 ctx.fail(mk(), f'file not positioned at / readable from the start after the call [{stream}]', stream=stream)
             if expect is not None and out != expect:
+                fid = finding_if_wrong(b, out) if callable(finding_if_wrong) else finding_if_wrong
                 ctx.fail(mk(), f'valid {expect} file identified as {out!r} ({json.dumps(origin, default=repr)[:300]}) [{stream}]',
-                         finding=finding_if_wrong, stream=stream)
-            if expect is not None and self.bft.is_lis_file_type(out) != (expect in ('LIS', 'LISt', 'LIStr')):
+                         finding=fid, stream=stream)
+            if expect is not None and out == expect and self.bft.is_lis_file_type(out) != (expect in ('LIS', 'LISt', 'LIStr')):
                 ctx.fail(mk(), f'is_lis_file_type({out!r}) wrong for a valid {expect} file [{stream}]', stream=stream)
         if check_path and not out.startswith('EXC:') and out != 'TIMEOUT':
             ctx.count('oracle_cases')
@@ -293,11 +295,7 @@ class Batch:
             self.pending.append((stream, origin, b, out, sub_dat(self.bft, b), lis))
             # the concrete deep test `TD.C20.lisTest` (C05 pad scan + reader, C06 index) against `_lis` itself, on complete
             # written LIS files (the model obtains the records by whole-record reads, exact when every record is complete)
-            padded_plain = expect == 'LIS' and (origin.get('gen') == 'lispad' or origin.get('sized') == 'lispad')
-            # (plain files with PAD bytes are left out: when the pad options tie the code reads them with pad 0, mis-reads the
-            #  record after the first padded one and still answers LIS because skipping does not notice the end of file —
-            #  the model's whole-record read does notice; see notes)
-            if expect in ('LIS', 'LISt', 'LIStr') and not padded_plain and len(b) <= LIS_DEEP_MAX and stream.split(':')[0] in ('valid', 'sized'):
+            if expect in ('LIS', 'LISt', 'LIStr') and len(b) <= LIS_DEEP_MAX and stream.split(':')[0] in ('valid', 'sized', 'corpus'):
                 try:
                     deep = self.bft._lis(io.BytesIO(b)) or '-'
                 except BaseException:
@@ -406,6 +404,34 @@ def ebcdic_blocks(rng):
             cards.append('C' + num[:2].ljust(2) + ''.join(rng.choice('ABC xyz09') for _ in range(77)))
         out.append(''.join(cards).encode('cp500') + b'\x00' * rng.choice([0, 10]))
     return out
+
+
+def lis_overcount_finding(true_mod):
+    """Classifier of known finding C20-lis-padded-wrong-option-overcounts for a plain null-padded file whose own pad option
+    is (true_mod, False): the answer is '' and, in both rounds, an option other than the file's own counts more records."""
+    def classify(b, out):
+        if out != '':
+            return None
+        from TotalDepth.LIS.core import File
+        for lim in (100, 0):
+            d = {(k.pad_modulo, k.pad_non_null): v for k, v in File.scan_file_with_different_padding(io.BytesIO(b), True, lim).items()}
+            if not (0 < d[(true_mod, False)] < max(d.values())):
+                return None
+        return 'C20-lis-padded-wrong-option-overcounts'
+    return classify
+
+
+def lispad_finding(name, expect, rec):
+    """finding classifier for a generated padded plain LIS file (None for everything else)"""
+    if name != 'lispad' or expect != 'LIS' or rec.get('nonnull'):
+        return None
+    if rec.get('padbreak') == 'short':
+        return lis_overcount_finding(2)
+    if rec.get('padbreak') == 'late':
+        return lis_overcount_finding(rec['mod'])
+    if rec.get('padded') and rec['padded'][0] == 'mod' and rec['padded'][1] in (2, 4):
+        return lis_overcount_finding(rec['padded'][1])
+    return None
 
 
 def odd_version_las(rng):
@@ -567,6 +593,9 @@ def run(ctx):
     # ---- 0. permanent regression corpus (inputs that once made binary_file_type raise)
     for name, b in CORPUS:
         B.run_one('corpus', b, {'corpus': name}, check_path=True)
+    from gen import c20_corpus
+    for name, expect, b in c20_corpus.items():
+        B.run_one('corpus', b, {'corpus': name}, expect=expect, check_path=True)
     B.flush()
     # ---- 0b. two input classes found while stating the recognition theorems against the C09 / C14 printers (known findings)
     for b, expect in odd_version_las(rng):
@@ -595,7 +624,8 @@ def run(ctx):
                 b, expect, rec = generate_sized(name, target, seed)
                 if name in ('lis', 'lispad') and expect != 'LIS' and rec.get('first_pr') == 276:
                     expect = None
-                B.run_one('sized:' + name, b, {'sized': name, 'target': target, 'seed': seed}, expect=expect, check_path=(d == 0 and kk % 4 == 0))
+                B.run_one('sized:' + name, b, {'sized': name, 'target': target, 'seed': seed}, expect=expect, check_path=(d == 0 and kk % 4 == 0),
+                          finding_if_wrong=lispad_finding(name, expect, rec))
         B.flush()
     # ---- 1c. path histories: the answer is a function of the bytes, not of what was at that path before
     run_histories(ctx, bft)
@@ -610,7 +640,7 @@ def run(ctx):
             origin = {'gen': name, 'seed': seed}
             if name in ('lis', 'lispad') and expect != 'LIS' and rec.get('first_pr') == 276:
                 expect = None      # the stated exclusion: TIF-marked, first record exactly 276 bytes (BIT signature)
-            B.run_one('valid:' + name, b, origin, expect=expect, check_path=(k % 10 == 0))
+            B.run_one('valid:' + name, b, origin, expect=expect, check_path=(k % 10 == 0), finding_if_wrong=lispad_finding(name, expect, rec))
             if k < ctx.n(2, 6):
                 valid.append((b, expect, origin))
             if k == 0:
